@@ -58,7 +58,7 @@ theorem forCountB_succ {σ ρ : Type} (body : Nat → σ → R (RS.Step σ ρ)) 
       | .brk s' => .ok (.done s')
       | .ret v => .ok (.ret v) := rfl
 
-theorem unwrap_some {α : Type} (x : α) : RS.unwrap (some x) = .ok x := rfl
+theorem db_unwrap_some {α : Type} (x : α) : RS.unwrap (some x) = .ok x := rfl
 theorem unwrap_none {α : Type} : RS.unwrap (none : Option α) = .error .unwrapNone := rfl
 
 /-- `unwrapO r` followed by `k` is `r` followed by `RS.unwrap` and `k` -/
@@ -210,7 +210,7 @@ theorem dacb_walk_eq (c : Cfg) (d : DacB) (h : DacBInv c d) :
               cases bit with
               | false => rfl
               | true =>
-                simp only [bok, unwrap_some, Bool.not_true, Bool.false_eq_true, if_false]
+                simp only [bok, db_unwrap_some, Bool.not_true, Bool.false_eq_true, if_false]
                 rw [rs_rank1_eq c (R9.new c bv) hinv rfl pos hpos, unwrapO_bind]
                 have hr : (R9.new c bv).rank1 c pos
                     = .ok (if pos ≤ bv.len then some (Spec.cnt bv.bitAt pos) else none) :=
@@ -218,7 +218,7 @@ theorem dacb_walk_eq (c : Cfg) (d : DacB) (h : DacBInv c d) :
                 rw [hr]
                 by_cases hp : pos ≤ bv.len
                 · rw [if_pos hp]
-                  simp only [bok, unwrap_some]
+                  simp only [bok, db_unwrap_some]
                   have hc : Spec.cnt bv.bitAt pos ≤ pos := Spec.cnt_le _ _
                   exact ih (j + 1) _ _ (by omega) (by omega)
                 · rw [if_neg hp]; rfl
@@ -273,7 +273,7 @@ theorem dacb_iter_next_eq (c : Cfg) (it : GenFn.dacs_byte_Iter) (xs : List Nat) 
   rw [dacs_byte_len_eq, hlen, bok]
   by_cases hp : pos < xs.length
   · rw [if_pos hp, if_pos hp, dacs_byte_access_eq c d hI pos (by omega), hacc pos, List.getElem?_eq_getElem hp, bok,
-      unwrap_some, bok, cadd_ok c (by omega), bok, bok]
+      db_unwrap_some, bok, cadd_ok c (by omega), bok, bok]
     simp only [C17.okv, hacc pos, List.getElem?_eq_getElem hp]
   · rw [if_neg hp, if_neg hp, bok]
 
@@ -500,7 +500,7 @@ theorem dacb_vals_loop (c : Cfg) (n : Nat) (hn : 2 ≤ n) :
     unfold RS.forList
     unfold dacbValBody
     simp only []
-    rw [unwrap_some, bok]
+    rw [db_unwrap_some, bok]
     unfold RS.forRangeB
     rw [Nat.sub_zero, hstep, bok, List.foldl_cons]
     exact ih (pre ++ [x]) _ _ hs.1 hs.2 (fun y hy => hx y (by simp [hy]))
@@ -553,7 +553,7 @@ theorem dacs_byte_from_slice_eq (c : Cfg) (vals : Array Nat) (hv : ∀ x ∈ val
         rw [h1] at this; exact this
       rw [array_mapM_ok _ (fun x => x % 256) vals (by
         intro x hx
-        rw [unwrap_some, bok, if_pos (h256 x hx), Nat.mod_eq_of_lt (h256 x hx)]; rfl), bok, Array.toArray_toList]
+        rw [db_unwrap_some, bok, if_pos (h256 x hx), Nat.mod_eq_of_lt (h256 x hx)]; rfl), bok, Array.toArray_toList]
     · rw [if_neg h1, if_neg h1]
       rw [csub_ok c (by omega : 1 ≤ n), bok]
       have hd0 := DacB.DRep.init (List.replicate n 8)
